@@ -36,6 +36,9 @@ type tok10 struct {
 	contract        *common.Address
 	sum             *big.Int         // bank supply + ERC20 total supply, as the model expects it
 	erc             map[int]*big.Int // holder index -> ERC20 balance
+	noDeploy        bool             // the generator never binds a contract to this token
+	twin            int              // index of the token whose SYMBOL equals this token's MIN UNIT (-1: none)
+	twinOf          int              // index of the token whose MIN UNIT equals this token's SYMBOL (-1: none)
 }
 
 var c10Tokens = []tok10{
@@ -44,7 +47,17 @@ var c10Tokens = []tok10{
 	{symbol: "tkc", minUnit: "utkc", scale: 0, owner: 2, registered: true},
 	{symbol: "btcsym", minUnit: "btc", scale: 8, owner: -1, registered: false}, // bank denom without a token record ("ibc-like")
 	{symbol: "stake", minUnit: "stake", scale: 0, owner: -1, registered: true}, // the native token
+	// Symbols and min units are separate namespaces: a token's SYMBOL may equal another token's MIN UNIT. Every lookup
+	// on a conversion path has to resolve a coin denom as a min unit (never symbol first), or value moves between the
+	// two token records. Pair 1: both sides can get a contract. Pair 2: only the side whose symbol collides can.
+	{symbol: "aurum", minUnit: "gold", scale: 6, owner: 3, registered: true},
+	{symbol: "gold", minUnit: "ugold", scale: 18, owner: 0, registered: true},
+	{symbol: "argent", minUnit: "silver", scale: 0, owner: 1, registered: true, noDeploy: true},
+	{symbol: "silver", minUnit: "usilver", scale: 6, owner: 2, registered: true},
 }
+
+// indices of the tokens that take part in a cross-namespace collision
+var c10PairToks = []int{5, 6, 7, 8}
 
 const (
 	c10Beacon     = "0x000000000000000000000000000000000000bEAc"
@@ -76,6 +89,7 @@ type m10 struct {
 	nt       bool
 	cls      map[string]bool
 	avoidF6  bool
+	avoidXNS bool // generator switch: no fee swap whose target min unit is another token's symbol
 	moduleEt common.Address
 	feeSrv   map[string]v1.MsgServer // fee-swap msg servers over persistent registries, per (pair, ratio)
 	feeSeen  []op10                  // fee swaps drawn so far (generator: repeat a pair and ratio)
@@ -101,7 +115,8 @@ func mustOK(r chain.Result, what string) {
 func newC10() pbt.Machine[op10] {
 	c := gen.Env().NewCase()
 	e := c.E
-	m := &m10{c: c, enabled: true, cls: map[string]bool{}, avoidF6: os.Getenv("VERIF_C10_AVOID_F6") != ""}
+	m := &m10{c: c, enabled: true, cls: map[string]bool{}, avoidF6: os.Getenv("VERIF_C10_AVOID_F6") != "",
+		avoidXNS: os.Getenv("VERIF_C10_AVOID_XNS_FEESWAP") != ""}
 	// template prefix (identical for every case, so not part of the op list): beacon set, zero mint fee,
 	// three tokens of scales 6/18/0 with balances spread over the users
 	p := e.K.Token.GetParams(c.Ctx)
@@ -122,7 +137,15 @@ func newC10() pbt.Machine[op10] {
 			}
 		}
 		t.sum = c.Supply(t.minUnit).BigInt()
+		t.twin, t.twinOf = -1, -1
 		m.toks = append(m.toks, &t)
+	}
+	for i, a := range m.toks {
+		for j, b := range m.toks {
+			if i != j && a.minUnit == b.symbol {
+				a.twin, b.twinOf = j, i
+			}
+		}
 	}
 	return m
 }
@@ -183,6 +206,12 @@ func (m *m10) Next(t *rapid.T) op10 {
 	switch {
 	case k < 12: // deploy
 		op := op10{Kind: "deploy", Who: -1, Tok: rapid.IntRange(0, len(m.toks)-1).Draw(t, "tok")}
+		if rapid.IntRange(0, 9).Draw(t, "pairTok?") < 4 {
+			op.Tok = rapid.SampledFrom(c10PairToks).Draw(t, "pairTok")
+		}
+		if m.toks[op.Tok].noDeploy {
+			op.Tok = m.toks[op.Tok].twin // pair 2 keeps exactly one deployable side
+		}
 		if rapid.IntRange(0, 9).Draw(t, "nonGov") == 0 {
 			op.Who = rapid.IntRange(0, 3).Draw(t, "who")
 		}
@@ -216,7 +245,7 @@ func (m *m10) Next(t *rapid.T) op10 {
 		op.Parts = rapid.SampledFrom([]int{1, 1, 1, 2, 3}).Draw(t, "parts")
 		return op
 	case k < 78: // plain native mint / burn by the owner (legitimate changes of the sum)
-		op := op10{Kind: rapid.SampledFrom([]string{"mint", "burn"}).Draw(t, "mb"), Tok: rapid.IntRange(0, 2).Draw(t, "tok")}
+		op := op10{Kind: rapid.SampledFrom([]string{"mint", "burn"}).Draw(t, "mb"), Tok: rapid.SampledFrom([]int{0, 1, 2, 5, 6, 7, 8}).Draw(t, "tok")}
 		op.Who = m.toks[op.Tok].owner
 		op.Amount = m.drawAmount(t, m.c.Balance(e.Users[op.Who].Addr, m.toks[op.Tok].minUnit).BigInt()).String()
 		return op
@@ -229,6 +258,12 @@ func (m *m10) Next(t *rapid.T) op10 {
 		}
 		op.To = rapid.SampledFrom([]int{-1, -1, -1, 0, 1, 2, 3, 5, 6, 7}).Draw(t, "to")
 		op.Ratio = drawRatio(t, m.avoidF6).String()
+		if m.avoidXNS && m.toks[op.Tok2].twin >= 0 {
+			op.Tok2 = m.toks[op.Tok2].twin // swap into the twin instead: its min unit is nobody's symbol
+			if op.Tok2 == op.Tok {
+				op.Tok2 = 0
+			}
+		}
 		if len(m.feeSeen) > 0 && rapid.IntRange(0, 1).Draw(t, "repeatpair") == 0 {
 			prev := m.feeSeen[rapid.IntRange(0, len(m.feeSeen)-1).Draw(t, "prevfee")]
 			op.Tok, op.Tok2, op.Ratio = prev.Tok, prev.Tok2, prev.Ratio
@@ -243,6 +278,10 @@ func (m *m10) Next(t *rapid.T) op10 {
 }
 
 func (m *m10) pickTok(t *rapid.T, dep []int) int {
+	// the colliding denoms are converted often, deployed or not
+	if rapid.IntRange(0, 9).Draw(t, "pairTok?") < 4 {
+		return rapid.SampledFrom(c10PairToks).Draw(t, "pairTok")
+	}
 	if len(dep) > 0 && rapid.IntRange(0, 19).Draw(t, "undeployed") != 0 {
 		return rapid.SampledFrom(dep).Draw(t, "tokDeployed")
 	}
@@ -389,13 +428,21 @@ func (m *m10) Apply(op op10) error {
 			reject = "EVM failure injected"
 		}
 		commit = func() {
-			got, err := e.K.Token.GetToken(c.Ctx, tk.minUnit)
-			if err != nil || got.GetContract() == "" {
+			got, err := e.K.Token.GetToken(c.Ctx, tk.symbol) // by symbol: the lookup is symbol-first and symbols are unique
+			if err != nil || got.GetContract() == "" || got.GetMinUnit() != tk.minUnit {
 				panic(fmt.Sprintf("deployed token has no contract: %v", err))
 			}
 			a := common.HexToAddress(got.GetContract())
+			for _, o := range m.toks {
+				if o.contract != nil && *o.contract == a {
+					panic("two tokens bound to contract " + a.Hex())
+				}
+			}
 			tk.contract, tk.registered = &a, true
 			m.cls["deployed"] = true
+			if tk.twin >= 0 && m.toks[tk.twin].contract != nil || tk.twinOf >= 0 && m.toks[tk.twinOf].contract != nil {
+				m.cls["cross-namespace-pair-both-deployed"] = true
+			}
 		}
 
 	case "toerc20":
@@ -425,6 +472,7 @@ func (m *m10) Apply(op op10) error {
 		commit = func() {
 			tk.erc[op.To] = new(big.Int).Add(m.ercBal(tk, op.To), amount)
 			m.cls["toerc20-ok"] = true
+			m.notePair(tk, true)
 		}
 
 	case "fromerc20":
@@ -451,6 +499,7 @@ func (m *m10) Apply(op op10) error {
 		commit = func() {
 			tk.erc[op.Who] = new(big.Int).Sub(m.ercBal(tk, op.Who), amount)
 			m.cls["fromerc20-ok"] = true
+			m.notePair(tk, true)
 			if op.To == 7 {
 				m.cls["receiver-new-account"] = true
 			}
@@ -513,6 +562,9 @@ func (m *m10) Apply(op op10) error {
 		commit = func() {
 			tk.erc[op.Who] = new(big.Int).Sub(m.ercBal(tk, op.Who), amount)
 			m.cls["tonative-ok"] = true
+			if len(m.deployed()) > 1 {
+				m.cls["tonative-with-several-contracts"] = true
+			}
 			if op.To == 7 {
 				m.cls["receiver-new-account"] = true
 			}
@@ -586,8 +638,27 @@ func (m *m10) Apply(op op10) error {
 			m.nt = true
 			m.cls["failed-conversion-after-success"] = true
 		}
+		if op.Kind == "toerc20" || op.Kind == "fromerc20" {
+			m.notePair(tk, false)
+		}
 	}
 	return m.invariants()
+}
+
+// notePair records conversions of a coin whose denom is also another token's symbol.
+func (m *m10) notePair(tk *tok10, ok bool) {
+	if tk.twin < 0 {
+		return
+	}
+	other := m.toks[tk.twin].contract != nil
+	switch {
+	case ok && other:
+		m.cls["cross-namespace-pair-converted"] = true // both records have a contract: a symbol-first lookup would hit the twin's
+	case ok:
+		m.cls["cross-namespace-converted-twin-undeployed"] = true // a symbol-first lookup would find no contract
+	case tk.contract == nil && other:
+		m.cls["cross-namespace-undeployed-side-attempt"] = true // a symbol-first lookup would convert into the twin's contract
+	}
 }
 
 func (m *m10) noteFault(f string) {
